@@ -35,6 +35,7 @@ REPRO = {
     "D-51": ("\"he said 'hi' to me\"\n", dict(width=88, semantic=False, cleanups=False, smartquotes=True, ellipses=False, list_spacing="preserve")),
     "D-52": ("> \u201d\n> 1) x\n", dict(width=88, semantic=False, cleanups=False, smartquotes=False, ellipses=False, list_spacing="loose")),
     "D-27": ("> (...)\n> a...b...c ... ...\"...\" ...and ...anda...b...ca...b...c\n", dict(width=30, semantic=True, cleanups=False, smartquotes=False, ellipses=True, list_spacing="preserve")),
+    "D-83": ("text {% t %} | a b\n", dict(width=12, semantic=False, cleanups=False, smartquotes=False, ellipses=False, list_spacing="preserve")),
     "D-25": ("- aaa bbb {% /x %} ccc ddd\n", dict(width=10, semantic=False, cleanups=False, smartquotes=False, ellipses=False, list_spacing="preserve")),
 }
 
@@ -47,6 +48,9 @@ def classify(kf, rec):
     o = c.get("opts", {})
     if c.get("_diff"):
         return False
+    if cl == "block-like-line-after-tag-line":
+        # pass 1 put a word that looks like a table row / list item at a line start right after a line ending in a tag
+        return bool(re.search(r"(?:%\}|#\}|\}\}|-->)[ \t]*\n[ \t>]*(?:\||[-*+][ \t]|\d+[.)][ \t])", o1))
     if cl == "closing-tag-unindented":
         return bool(re.search(r"^(?:\s+|[-*+>] .*|\d+[.)] .*)(?:\{% /|\{# /|\{\{ /|<!-- /)", o1, flags=re.M)) or \
             bool(re.search(r"^\s+(?:\{% /|\{# /|\{\{ /|<!-- /)", o1, flags=re.M))
